@@ -1,5 +1,247 @@
-//! Conformance harness for specification-growth module g10 (see /verif/DESIGN.md 12.6).
+//! Conformance harness for specification-growth module G10 (debugging options
+//! xtrace / verbose / noexec; spec/XTrace.tla).
+//!
+//!   replay --in gen.ndjson --out mismatch.ndjson [--threads N]
+//!       spec -> impl: every line is a scenario printed by Gen_XTrace (script,
+//!       start-up options, dot scripts, the allowed outcomes); the script is
+//!       run on the real shell (simulated OS) and what is observed must be one
+//!       of the outcomes.
+//!   random --n N --out trace.ndjson [--threads N]
+//!       impl -> spec: seeded random scenarios (abstract syntax of XTrace.tla)
+//!       are rendered, run and recorded; Trace_XTrace judges the records.
+//!   one --in scenario.json --out record.ndjson [--show]
+//!   exp FILE [options]        run a script text (development aid)
+mod render;
+mod run;
+
+use rand::SeedableRng;
+use serde_json::{Value, json};
+use std::collections::BTreeMap;
+use std::io::{BufRead, Write};
+use std::sync::Mutex;
+use std::sync::atomic::{AtomicUsize, Ordering};
+use yvcommon::util::{self, opt, opt_usize};
+
+#[derive(Default)]
+struct Stats {
+    n: usize,
+    runs: usize,
+    mismatches: usize,
+    nontrivial: usize,
+    by_fam: BTreeMap<String, usize>,
+    by_class: BTreeMap<String, usize>,
+    features: BTreeMap<String, usize>,
+    alts_hist: BTreeMap<String, usize>,
+}
+
+impl Stats {
+    fn merge(&mut self, o: Stats) {
+        self.n += o.n;
+        self.runs += o.runs;
+        self.mismatches += o.mismatches;
+        self.nontrivial += o.nontrivial;
+        for (a, b) in [
+            (&mut self.by_fam, o.by_fam),
+            (&mut self.by_class, o.by_class),
+            (&mut self.features, o.features),
+            (&mut self.alts_hist, o.alts_hist),
+        ] {
+            for (k, v) in b {
+                *a.entry(k).or_default() += v;
+            }
+        }
+    }
+    fn json(&self) -> Value {
+        json!({"scenarios": self.n, "shell_runs": self.runs, "mismatches": self.mismatches, "nontrivial": self.nontrivial,
+               "by_fam": self.by_fam, "by_class": self.by_class, "features": self.features, "alternatives": self.alts_hist})
+    }
+}
+
+fn count_chunks(cs: &Value, f: &mut BTreeMap<String, usize>) {
+    for c in cs.as_array().into_iter().flatten() {
+        let k = c["k"].as_str().unwrap_or("?");
+        *f.entry(format!("chunk/{k}")).or_default() += 1;
+        if k == "p" {
+            count_chunks(&c["a"], f);
+            count_chunks(&c["b"], f);
+        }
+    }
+}
+
+/// features of the script text (what the enumeration exercised), counted per scenario
+fn features(script: &[String], alts: &Value, f: &mut BTreeMap<String, usize>) {
+    let text = script.join("\n");
+    for (name, pat) in [
+        ("heredoc", "<<"), ("dup", ">&"), ("fd2-redirect", "2>"), ("append", ">>"), ("cmdsub", "$("), ("arith", "$(("),
+        ("for", "for "), ("case", "case "), ("function", "() {"), ("pipeline", " | "), ("not", "! "), ("and", " && "),
+        ("or", " || "), ("eval", "eval "), ("dot", ". ./"), ("subshell", "(\n"), ("PS4", "PS4="), ("set+x", "+x"),
+        ("set-v", "-v"), ("set-n", "-n"), ("expansion-error", "${u?}"), ("not-found", "nosuch"), ("syntax-error", ";;\n"),
+        ("if", "if "), ("comment", "#"),
+    ] {
+        if text.contains(pat) {
+            *f.entry(format!("script/{name}")).or_default() += 1;
+        }
+    }
+    if let Some(a) = alts.as_array().and_then(|a| a.first()) {
+        count_chunks(&a["err"], f);
+    }
+}
+
+fn replay_one(e: &Value, st: &mut Stats) -> Vec<Value> {
+    let script = run::strs(&e["script"]);
+    let alts = &e["alts"];
+    st.n += 1;
+    *st.by_fam.entry(e["fam"].as_str().unwrap_or("?").to_string()).or_default() += 1;
+    let n_alts = alts.as_array().map(|a| a.len()).unwrap_or(0);
+    *st.alts_hist.entry(n_alts.to_string()).or_default() += 1;
+    let mut classes: Vec<&str> = alts.as_array().into_iter().flatten().map(|a| a["cls"].as_str().unwrap_or("?")).collect();
+    classes.sort();
+    classes.dedup();
+    let class = classes.join("+");
+    *st.by_class.entry(class.clone()).or_default() += 1;
+    features(&script, alts, &mut st.features);
+    let obs = run::run_scenario(&script, &e["o"], &e["dots"]);
+    st.runs += 1;
+    if class == "ok" {
+        let a0 = &alts[0];
+        if a0["err"].as_array().map(|a| !a.is_empty()).unwrap_or(false) {
+            st.nontrivial += 1;
+        }
+    }
+    match run::judge(alts, &obs) {
+        None => vec![],
+        Some(symptom) => {
+            st.mismatches += 1;
+            vec![json!({
+                "key": {"dir": "spec->impl", "fam": e["fam"], "symptom": symptom, "script": script.join("\n"),
+                        "opts": opts_text(&e["o"])},
+                "detail": format!("{symptom}: what the shell shows is none of the {n_alts} outcome(s) XTrace.tla allows"),
+                "script": script, "o": e["o"], "dots": e["dots"], "sc": e["sc"], "alts": alts, "obs": obs.to_json(),
+            })]
+        }
+    }
+}
+
+fn opts_text(o: &Value) -> String {
+    let mut s = String::new();
+    for k in ["x", "v", "n", "i"] {
+        if o[k] == true {
+            s.push_str(k);
+        }
+    }
+    s
+}
+
+fn record_of(sc: &Value, st: &mut Stats) -> Value {
+    let script = render::script(sc);
+    let dots = render::dots(sc);
+    let obs = run::run_scenario(&script, &sc["o"], &dots);
+    st.n += 1;
+    st.runs += 1;
+    let mut f = BTreeMap::new();
+    features(&script, &Value::Null, &mut f);
+    for (k, v) in f {
+        *st.features.entry(k).or_default() += v;
+    }
+    json!({"sc": sc, "script": script, "obs": obs.to_json()})
+}
+
+fn par_map<T: Send + Sync, F>(items: &[T], threads: usize, out: &Mutex<Box<dyn Write + Send>>, f: F) -> Stats
+where
+    F: Fn(&T, &mut Stats) -> Vec<Value> + Sync,
+{
+    let next = AtomicUsize::new(0);
+    let total = Mutex::new(Stats::default());
+    // results are written in input order per block; the order across blocks does not matter
+    std::thread::scope(|s| {
+        for _ in 0..threads.max(1) {
+            s.spawn(|| {
+                util::quiet_panics();
+                let mut st = Stats::default();
+                let mut buf: Vec<u8> = Vec::new();
+                loop {
+                    let i = next.fetch_add(32, Ordering::Relaxed);
+                    if i >= items.len() {
+                        break;
+                    }
+                    for it in &items[i..(i + 32).min(items.len())] {
+                        for v in f(it, &mut st) {
+                            buf.extend_from_slice(v.to_string().as_bytes());
+                            buf.push(b'\n');
+                        }
+                    }
+                    if buf.len() > 1 << 16 {
+                        out.lock().unwrap().write_all(&buf).unwrap();
+                        buf.clear();
+                    }
+                }
+                out.lock().unwrap().write_all(&buf).unwrap();
+                total.lock().unwrap().merge(st);
+            });
+        }
+    });
+    out.lock().unwrap().flush().unwrap();
+    total.into_inner().unwrap()
+}
+
+fn open_out_send(args: &[String]) -> Mutex<Box<dyn Write + Send>> {
+    let p = opt(args, "--out").expect("--out");
+    Mutex::new(Box::new(std::io::BufWriter::with_capacity(1 << 20, std::fs::File::create(p).expect("create --out"))))
+}
+
 fn main() {
-    eprintln!("yv-g10: not implemented yet");
-    std::process::exit(2);
+    let args: Vec<String> = std::env::args().skip(1).collect();
+    let threads = opt_usize(&args, "--threads", 8);
+    util::quiet_panics();
+    match args.first().map(|s| s.as_str()) {
+        Some("replay") => {
+            let input = util::open_in(&args);
+            let items: Vec<Value> = input
+                .lines()
+                .map(|l| l.expect("read"))
+                .filter(|l| !l.trim().is_empty())
+                .map(|l| serde_json::from_str(&l).expect("scenario json"))
+                .collect();
+            let out = open_out_send(&args);
+            let st = par_map(&items, threads, &out, replay_one);
+            println!("{}", st.json());
+        }
+        Some("random") => {
+            let n = opt_usize(&args, "--n", 1000);
+            let seed = util::seed();
+            let mut rng = rand::rngs::StdRng::seed_from_u64(seed.wrapping_mul(0x9e37_79b9).wrapping_add(1010));
+            let items: Vec<Value> = (0..n).map(|_| render::random_scenario(&mut rng)).collect();
+            let out = open_out_send(&args);
+            let st = par_map(&items, threads, &out, |sc, st| vec![record_of(sc, st)]);
+            println!("{}", st.json());
+        }
+        Some("one") => {
+            let p = opt(&args, "--in").expect("--in");
+            let v: Value = serde_json::from_str(&std::fs::read_to_string(p).expect("read --in")).expect("json");
+            let sc = if v.get("sc").is_some() { v["sc"].clone() } else { v };
+            let mut st = Stats::default();
+            let rec = record_of(&sc, &mut st);
+            let mut out = util::open_out(&args);
+            writeln!(out, "{rec}").unwrap();
+            if args.iter().any(|a| a == "--show") {
+                eprintln!("{}", run::strs(&rec["script"]).join("\n"));
+                eprintln!("{}", serde_json::to_string_pretty(&rec["obs"]).unwrap());
+            }
+        }
+        Some("exp") => {
+            let text = std::fs::read_to_string(&args[1]).unwrap();
+            let lines: Vec<String> = text.lines().map(|s| s.to_string()).collect();
+            let o = json!({"x": args.iter().any(|a| a == "-x"), "v": args.iter().any(|a| a == "-v"),
+                           "n": args.iter().any(|a| a == "-n"), "i": args.iter().any(|a| a == "-i")});
+            let obs = run::run_scenario(&lines, &o, &json!([]));
+            println!("outcome={} status={} reached={} xt={} vb={}", obs.outcome, obs.status, obs.reached, obs.xt, obs.vb);
+            println!("--- stdout\n{}", obs.out);
+            println!("--- stderr\n{}", obs.err);
+            println!("--- files {:?}\n--- vars {:?}", obs.files, obs.vars);
+        }
+        _ => {
+            eprintln!("usage: yv-g10 replay|random|one|exp ...");
+            std::process::exit(2);
+        }
+    }
 }
